@@ -402,6 +402,32 @@ func c17Contract(env *core.Env) {
 			env.Violatef("C17/unknown-variable/not-an-evaluation-error", "`%s` must be an evaluation error, observed %s", src, trunc(rr.Short(), 100))
 		}
 	}
+	// an evaluation whose options fail leaves nothing behind: the variables it did accept are unknown afterwards,
+	// and may be supplied again
+	for round := 0; round < 3; round++ {
+		for _, bad := range []fhirpath.EvaluateOption{evalopts.EnvVariable("bad", 42), evalopts.EnvVariable("context", system.Integer(1)), evalopts.EnvVariable("nc", system.Collection{system.Collection{}})} {
+			exLeak, _ := fx.Compile(env, "%leak")
+			exOther, _ := fx.Compile(env, "Patient.id")
+			if exLeak == nil || exOther == nil {
+				break
+			}
+			r0 := fx.Evaluate(env, exOther, in, evalopts.EnvVariable("leak", system.Integer(5)), bad, evalopts.EnvVariable("leak2", system.String("x")))
+			env.Cover("failed-options-leave-nothing")
+			if !r0.IsError() {
+				env.Violatef("C17/evalopts/failing-option-ignored/unsupported", "an evaluation with a failing option returned %s", trunc(r0.Short(), 80))
+			}
+			for _, src := range []string{"%leak", "%leak2", "Patient.name.select(%leak)"} {
+				rr := fx.Eval(env, src, in, nil, nil)
+				if rr.Kind != "error" {
+					env.Violatef("C17/history/variable-of-a-failed-evaluation-visible", "`%s` without options, after an evaluation that accepted that variable and then failed on another option: expected an unknown-variable error, observed %s", src, trunc(rr.Short(), 100))
+				}
+			}
+			r1 := fx.Evaluate(env, exLeak, in, evalopts.EnvVariable("leak", system.Integer(6)))
+			if it, ok := r1.Single(); !ok || it.T != "6" {
+				env.Violatef("C17/history/variable-cannot-be-supplied-again", "`%%leak` with leak = 6, after an earlier evaluation that failed in its options with leak = 5: %s", trunc(r1.Short(), 120))
+			}
+		}
+	}
 	// custom function contract
 	p := &c17Probe{}
 	co := []fhirpath.CompileOption{compopts.AddFunction("one", p.f1), compopts.AddFunction("two", p.f2), compopts.AddFunction("three", p.f3), compopts.AddFunction("boom", p.ferr)}
